@@ -171,7 +171,7 @@ def replay_file(path):
     return 0
 
 
-def cases_and_validate(chk, flavour, exe_name, cases_path, name, module="TraceAlgo", shards=None):
+def cases_and_validate(chk, flavour, exe_name, cases_path, name, module="TraceAlgo", shards=None, extra_args=()):
     """TLC-emitted instances (lines {"scen":..,"inst":..}) executed by the real code, results validated by TLC."""
     exe = vlib.build_exe(flavour, exe_name)
     d = vlib.scratch("%s-cases-%s" % (chk.pid, flavour))
@@ -197,7 +197,7 @@ def cases_and_validate(chk, flavour, exe_name, cases_path, name, module="TraceAl
 
     def one(cp):
         out = cp.replace(".txt", ".ndjson")
-        rc, so, se = vlib.run_exe(exe, ["out=" + out, "cases=" + cp], timeout=3000)
+        rc, so, se = vlib.run_exe(exe, ["out=" + out, "cases=" + cp] + list(extra_args), timeout=6000)
         if rc != 0:
             raise vlib.FrameworkError("recorder failed on cases: %s" % (se or "")[-500:])
         return out
